@@ -436,9 +436,69 @@ def native_result(case, vals_list):
     return ints[0] & ((1 << bits_of(case.ret)) - 1)
 
 
+def comptime_terms(chk, tier, rnd):
+    """'Evaluated both at runtime and inside comptime': closed expressions over boundary operands are evaluated by a
+    `comptime { .. }` block and by ordinary run-time code in the same program and compared at full width. The run-time
+    side is what the symbolic part of this check ties to the specification for ALL operand values; these are closed
+    terms (no inputs), recorded as such."""
+    import os
+    from lib import replay as replaylib
+    types = ['i8', 'i16', 'i32', 'i64', 'u8', 'u16', 'u32', 'u64', 'i128', 'u128']
+    per_op = 3 if tier == 'quick' else 12
+    terms = []
+    for t in types:
+        w = bits_of(t)
+        ops = ['T.(0)', 'T.(1)', 'T.(2)', '(T.(0) - T.(1))', '(T.(1) << T.(%d))' % (w - 1), '(~(T.(1) << T.(%d)))' % (w - 1), 'T.(%d)' % rnd.randint(3, 120),
+               '(T.(%d) * T.(%d))' % (rnd.randint(3, 11), rnd.randint(3, 11)), '((T.(0) - T.(1)) - T.(%d))' % rnd.randint(1, 100), '(T.(1) << T.(%d))' % (w - 2)]
+        ops = [o.replace('T', t) for o in ops]
+        for name, o in (('add', '+'), ('sub', '-'), ('mul', '*'), ('and', '&'), ('or', '|'), ('xor', '~')):
+            for _ in range(per_op):
+                terms.append((t, '%s %s %s' % (rnd.choice(ops), o, rnd.choice(ops)), 'binop-' + name))
+        for name, o in (('shl', '<<'), ('shr', '>>')):
+            for _ in range(per_op):
+                terms.append((t, '%s %s %s.(%d)' % (rnd.choice(ops), o, t, rnd.randint(0, w - 1)), 'binop-' + name))
+        if w <= 64:       # `/` and `%` on 128-bit integers are not compiled at all (known finding)
+            for name, o in (('div', '/'), ('rem', '%')):
+                for _ in range(per_op):
+                    terms.append((t, '%s %s %s.(%d)' % (rnd.choice(ops), o, t, rnd.randint(1, 100)), 'binop-' + name))
+        for o in ('<', '<=', '>', '>=', '==', '!='):
+            terms.append(('bool', '%s %s %s' % (rnd.choice(ops), o, rnd.choice(ops)), 'cmp'))
+        for d in rnd.sample(types, 4 if tier == 'quick' else len(types)):
+            if d != t:
+                terms.append((d, '%s.(%s)' % (d, rnd.choice(ops)), 'cast-%s-to-%s' % (t, d)))
+    lines = [clifcheck.PRELUDE]
+    for k, (t, e, _) in enumerate(terms):
+        lines.append('ct_%d :: () -> bool { a : %s = comptime { %s }; b : %s = %s; a == b }' % (k, t, e, t, e))
+    body = '\n'.join('    if !ct_%d() { out_hex(%d); }' % (k, k) for k in range(len(terms)))
+    src = '\n'.join(lines) + '\nmain :: () -> i32 {\n%s\n    putchar(59); putchar(10);\n    0\n}\n' % body
+    wd = common.workdir('C08')
+    open(os.path.join(wd, 'comptime_terms.capy'), 'w').write(src)
+    res = common.capy_native('comptime_terms.capy', wd, timeout=600)
+    chk.cov['closed_terms'] = {'comptime_vs_runtime_terms': len(terms), 'built': res['rc'] is not None}
+    if res['rc'] is None:
+        first = [l for l in res['build_out'].splitlines() if 'panicked' in l or l.startswith('error')][:2]
+        raise Inconclusive('the comptime/runtime term program was not built: %s' % (' / '.join(first)[:300] or res['build_out'][-300:]))
+    failing = [int(l, 16) for l in res['stdout'].split('\n') if len(l) == 16 and all(c in '0123456789abcdef' for c in l)]
+    if not res['stdout'].rstrip().endswith(';'):
+        raise Inconclusive('the comptime/runtime term program did not run to its end (rc %r)' % (res['rc'],))
+    chk.cov['closed_terms']['disagreeing_terms'] = len(failing)
+    seen = set()
+    for k in failing:
+        t, e, kind = terms[k]
+        cls = kind.split('-')[0] + ('-128-bit' if '128' in (t + kind) else '')
+        if cls in seen:
+            continue
+        seen.add(cls)
+        key = {'kind': 'comptime-vs-runtime', 'class': cls}
+        what = 'the closed term `%s` (at type %s) evaluates differently inside `comptime { }` and at run time (%d of %d terms disagree)' % (e, t, len(failing), len(terms))
+        one = clifcheck.PRELUDE + 'main :: () -> i32 { a : %s = comptime { %s }; b : %s = %s; if a == b { 0 } else { 1 } }\n' % (t, e, t, e)
+        chk.report(key, what, replaylib.make_native_replay('C08', 'comptime_%d' % k, one, None, 0, '', 1, what, key))
+
+
 def run(chk, tier, seed):
     common.build_capy()
     rnd = random.Random(seed)
+    comptime_terms(chk, tier, random.Random(seed + 1))
     cases = gen_cases(tier)
     mod, cases, tsrc = compile_cases(chk, cases, 'ops')
     chk.opcodes.update(mod.opcodes)
